@@ -1,11 +1,15 @@
 import LJT.Proofs.Suspend
+import LJT.Proofs.SeqStable
 /-! # C09 - decoded and encoded data do not depend on I/O chunking or scheduling
 
 Theorems about the suspension protocol (Model/Suspend.lean).  The generic theorem is stated
 for any unit of work that obeys libjpeg's suspension contract ("either finish, or return
-suspended with the saved state untouched; never look beyond what is needed"); that each real
-unit (marker readers, `decode_mcu_*`, `encode_mcu_huff`) obeys it is what the harness checks
-on the real code under every split position. -/
+suspended with the saved state untouched; never look beyond what is needed"); it is proved for
+the marker-segment reader (bytes) and for the sequential Huffman MCU decoder (bits; the model
+`SeqHuff.decodeBlocks`, the same functions the C03 round trip and the T.81 reader are built
+from); that the remaining real units (progressive and arithmetic `decode_mcu_*`,
+`encode_mcu_huff`) and the bit buffer in front of the MCU decoder obey it is what the harness
+checks on the real code under every split position. -/
 namespace LJT.Props.C09
 open LJT.Suspend
 
@@ -39,5 +43,24 @@ example : ChunkRun segStep 0 [] [[0xFF, 0xFE, 0], [3, 7], [0xFF]] 1 [0xFF] := by
   apply ChunkRun.adv _ _ _ 1 5 _ _ (by decide)
   apply ChunkRun.more _ _ _ _ _ _ (by decide)
   exact ChunkRun.done _ _ (by decide)
+
+/-- **The sequential Huffman MCU decoder is a conforming unit of work**: for every pair of tables per component and
+every MCU layout, if it decodes an MCU from the bits it has, it decodes the same MCU, leaves the same predictors and
+consumes the same number of bits when any further bits follow - it never looks beyond what it needs. -/
+theorem mcu_decoder_is_stable (tabs : Nat → Option (LJT.Huff.DDerived × LJT.Huff.DDerived)) (slots : List Nat) :
+    Stable (LJT.SeqHuff.mcuStep tabs slots) := LJT.SeqHuff.mcuStep_stable tabs slots
+
+/-- **Decoded MCUs do not depend on how the entropy-coded bits were delivered**: two deliveries of the same bit string,
+cut anywhere, leave the same predictors, the same list of decoded MCUs and the same unread bits. -/
+theorem decoded_mcus_independent_of_chunking (tabs : Nat → Option (LJT.Huff.DDerived × LJT.Huff.DDerived)) (slots : List Nat)
+    (s : Array Int × List (List LJT.SeqHuff.Blk)) (cs1 cs2 : List (List Bool)) (h : cs1.flatten = cs2.flatten)
+    (a1 a2 : Array Int × List (List LJT.SeqHuff.Blk)) (b1 b2 : List Bool)
+    (h1 : ChunkRun (LJT.SeqHuff.mcuStep tabs slots) s [] cs1 a1 b1)
+    (h2 : ChunkRun (LJT.SeqHuff.mcuStep tabs slots) s [] cs2 a2 b2) : a1 = a2 ∧ b1 = b2 :=
+  LJT.Suspend.chunking_independent _ (LJT.SeqHuff.mcuStep_stable tabs slots) s cs1 cs2 h a1 a2 b1 b2 h1 h2
+
+/-- the same for the lossless MCU decoder (one Huffman-coded difference per component) -/
+theorem lossless_mcu_decoder_is_stable (dds : List LJT.Huff.DDerived) (tblOf : List Nat) (nc : Nat) :
+    Stable (LJT.SeqHuff.llMcuStep dds tblOf nc) := LJT.SeqHuff.llMcuStep_stable dds tblOf nc
 
 end LJT.Props.C09
